@@ -143,6 +143,7 @@ def _unit(pid, modname):
 
 _unit("C18", "chk_c18")
 _unit("C17", "chk_c17")
+_unit("C19", "chk_c19")
 
 
 @check("C16")
